@@ -525,6 +525,29 @@ func genC03(tier string, rng *Rng) {
 	}
 	flush(true)
 
+	// (1b) PAIRS of adjacent binary events in one message: every (pressed, edge) x (pressed, edge), same id and
+	// different ids, alone and between other events (seed C03-14: an adjacent Down + Up of one component
+	// written as the compact "Press" line carried only the Down's edge; the single-event grid above never
+	// puts a Down directly before an Up of the same component with another edge)
+	for _, same := range []bool{true, false} {
+		for _, e1 := range edgeGrid {
+			for _, e2 := range edgeGrid {
+				for pp := 0; pp < 4; pp++ {
+					id2 := uint32(12)
+					if !same {
+						id2 = 13
+					}
+					a := &rwp.HWCEvent{HWCID: 12, Binary: &rwp.BinaryEvent{Pressed: pp&1 != 0, Edge: rwp.BinaryEvent_EdgeID(e1)}}
+					b := &rwp.HWCEvent{HWCID: id2, Binary: &rwp.BinaryEvent{Pressed: pp&2 != 0, Edge: rwp.BinaryEvent_EdgeID(e2)}}
+					one("event-pairs", &rwp.OutboundMessage{Events: []*rwp.HWCEvent{a, b}})
+					if same && e1 != e2 && pp == 1 {
+						one("event-pairs", &rwp.OutboundMessage{Events: []*rwp.HWCEvent{{HWCID: 12, Pulsed: &rwp.PulsedEvent{Value: 1}}, a, b, a, b, {HWCID: 12, Absolute: &rwp.AbsoluteEvent{Value: 5}}}})
+					}
+				}
+			}
+		}
+	}
+
 	// (2) all 2^13 capability subsets
 	for bits := 0; bits < 1<<13; bits++ {
 		f := make([]bool, 13)
